@@ -110,7 +110,7 @@ def in_memory_roundtrip(props=None):
     other = fresh('other_id'); st.assume(Val.is_s(other)); st.assume(other != Val.s(rid)); other_before = (st.dhas(store, other), st.dget(store, other))
     d0 = st.dcontents(d); m0 = st.dcontents(mt)
     st.push({'self': selfv, 'recording': rec}, None, ('playback.tape_cassette', 'TapeCassette', save))
-    P = ('C07', 'C10'); obl = []; U = 'InMemoryTapeCassette'; n = 0
+    P = ('C07', 'C10', 'C01'); obl = []; U = 'InMemoryTapeCassette'; n = 0      # C01: replay fidelity holds through every cassette type
     for s1, oc in ex.block(save.body, st):
         n += 1
         if oc[0] == 'raise':
@@ -473,7 +473,7 @@ def file_roundtrip(props=None):
     _, _, get, info_g = repo.find(FB + 'get_recording'); _, _, fsave, info_fs = repo.find(FB + '_save_recording'); _, _, pth, info_p = repo.find(FB + '_get_recording_file_path')
     d0 = st.dcontents(dd); m0 = st.dcontents(mt); fs0 = (st.g['fs_dom'], st.g['fs_text'])
     q = fresh('other_path', Str)
-    P = ('C07', 'C10'); obl = []; U = 'FileBasedTapeCassette'; n = 0
+    P = ('C07', 'C10', 'C01'); obl = []; U = 'FileBasedTapeCassette'; n = 0
     FBM = 'playback.tape_cassettes.file_based.file_based_tape_cassette'
     for s1, oc in ex.block(node.body, st):
         n += 1
